@@ -430,7 +430,8 @@ func (sc *Scen) stepOtb() {
 	case 2:
 		cltv++
 	case 3:
-		cltv = PickI(r, []int64{0, -1, 504, 505, 30, 1008, 1 << 40})
+		// (never negative: both back-ends decode min_final_cltv_expiry as an unsigned number)
+		cltv = PickI(r, []int64{0, 1, 504, 505, 30, 1008, 1 << 40})
 	case 4:
 		msat = 0
 	}
